@@ -186,12 +186,16 @@ let do_term args =
 
 (* ---- build script model: grammar texts are registered with their real header and code ---- *)
 let bs_table : (Stdlib.String.t, (n list * n list * n list option)) Hashtbl.t = Hashtbl.create 8
+(* prefix text -> the header line generate_prefix_header prints for it *)
+let bs_prefix_lines : (n list, n list) Hashtbl.t = Hashtbl.create 8
 
 let do_bs args =
   (* ops separated by ';' : Ek (edit to registered grammar k, E- = unreadable), P<hex>, F0/F1, D, R *)
   match args with
   | [ops] ->
-    let lookup_hdr g = let r = ref [] in Hashtbl.iter (fun _ (t, h, _) -> if t = g then r := h) bs_table; !r in
+    let lookup_hdr g p =
+      let r = ref [] in Hashtbl.iter (fun _ (t, h, _) -> if t = g then r := h) bs_table;
+      !r @ (try Hashtbl.find bs_prefix_lines p with Not_found -> failwith "prefix line not registered") in
     let lookup_code g = let r = ref None in Hashtbl.iter (fun _ (t, _, c) -> if t = g then r := c) bs_table; !r in
     let fmt x = x in
     let conf = ref { prefix = []; format = false } in
@@ -291,6 +295,7 @@ let () =
            | "spec" :: args -> do_spec args
            | "term" :: args -> do_term args
            | ["bsreg"; k; t; h; c] -> Hashtbl.replace bs_table k (unhex t, unhex h, (if c = "-" then None else Some (unhex c))); "SET"
+           | ["bspfx"; p; l] -> Hashtbl.replace bs_prefix_lines (unhex p) (unhex l); "SET"
            | "bs" :: args -> do_bs args
            | "compile" :: args -> do_compile args
            | ["inlrel"; ga; gb] ->
